@@ -13,6 +13,7 @@
      D / T = hydrogen of mass 2 / 3, whatever property lines the file contains.
    Result as in MolV3000: [ok, atoms, bonds].                                               *)
 EXTENDS MolV3000
+ClearDTOnISO == FALSE         \* TRUE = the pinned tree: any M  ISO line erases the masses of D / T atoms (negative control, overridden with <-)
 
 Col(s, a, b) == IF Len(s) < a THEN "" ELSE SubSeq(s, a, IF Len(s) < b THEN Len(s) ELSE b)
 RECURSIVE StripL(_)
@@ -58,6 +59,7 @@ DecodeV2000(lines) ==
                   chg |-> IF superseded THEN LastFor(chgE, k) ELSE ChargeOfCode(code(k)),
                   rad |-> IF superseded THEN LastFor(radE, k) ELSE RadOfCode(code(k)),
                   mass |-> IF HasFor(isoE, k) /\ LastFor(isoE, k) # 0 THEN LastFor(isoE, k)
+                           ELSE IF ClearDTOnISO /\ \E i \in 1..Len(props) : StartsWith(props[i], "M  ISO") THEN 0
                            ELSE IF symOf(k) = "D" THEN 2 ELSE IF symOf(k) = "T" THEN 3 ELSE 0]])
       allE == chgE \o radE \o isoE
   IN IF \E i \in 1..Len(allE) : allE[i][1] < 1 \/ allE[i][1] > na THEN DErr("index") ELSE
